@@ -29,11 +29,13 @@ pub struct Emit<'a> {
     pub vars: BTreeSet<u32>,
     abstract_mul: bool,
     lemmas: String,
+    /// the abstraction met a fraction: the query must not be used
+    pub unsupported: bool,
 }
 
 impl<'a> Emit<'a> {
     pub fn new(ar: &'a Arena, abstract_mul: bool) -> Self {
-        Emit { ar, out: String::new(), done: HashSet::new(), has_den: HashSet::new(), vars: BTreeSet::new(), abstract_mul, lemmas: String::new() }
+        Emit { ar, out: String::new(), done: HashSet::new(), has_den: HashSet::new(), vars: BTreeSet::new(), abstract_mul, lemmas: String::new(), unsupported: false }
     }
     fn is_const(&self, t: Tid) -> bool {
         matches!(self.ar.nodes[t as usize], Node::Const(_))
@@ -113,10 +115,10 @@ impl<'a> Emit<'a> {
                         b = self.num(b)
                     ));
                     if self.den(a).is_some() || self.den(b).is_some() {
-                        // abstraction of fractions is not supported: mark so the caller can skip this tier
+                        // abstraction of fractions is not supported: the caller must drop this tier
                         self.has_den.insert(u);
                         self.out.push_str(&format!("(define-fun d{} () Int 1)\n", u));
-                        self.lemmas.push_str("(assert false)\n");
+                        self.unsupported = true;
                     }
                 }
                 Node::Mul(a, b) => {
@@ -471,6 +473,10 @@ pub fn emit_query(ar: &Arena, conds: &[(Cond, bool)], free: Option<u32>, abstrac
     }
     let relevant: BTreeSet<u32> = e.vars.clone();
     let (axioms, n_ax) = ro_axioms(&mut e, ar, &relevant);
+    if abstract_mul && (e.any_den() || e.unsupported) {
+        // fractions appeared while emitting the oracle axioms: tier A does not apply
+        return None;
+    }
     let vars_all: Vec<u32> = e.vars.iter().copied().collect();
     let subst_vars: BTreeSet<u32> = subs.iter().map(|s| s.var).collect();
     let mut s = String::new();
